@@ -1039,7 +1039,83 @@ func (a *lockAnalysis) accesses(guards map[*types.Var]*guardInfo) []fieldAccess 
 			}
 		})
 	}
+	for k := range out {
+		a.refineBySharedCallers(&out[k])
+	}
 	return out
+}
+
+// refineBySharedCallers: an access through a parameter of a helper whose
+// callers are all visible (setFlag(msg) …). Call sites that pass an object
+// still under construction do not constrain the lockset; the classes held at
+// every other call site are added as class-level holds. If every call site
+// passes a fresh object the access is marked "~fresh".
+func (a *lockAnalysis) refineBySharedCallers(ac *fieldAccess) {
+	fn := ac.fn
+	prm := paramOf(ac.base)
+	if prm == nil {
+		if q, ok := ac.base.(*ssa.Parameter); ok {
+			prm = q
+		}
+	}
+	if prm == nil || prm.Parent() != fn || !contextEligible(fn) {
+		return
+	}
+	idx := -1
+	for k, q := range fn.Params {
+		if q == prm {
+			idx = k
+		}
+	}
+	if idx < 0 {
+		return
+	}
+	var common map[string]bool
+	shared, fresh := 0, 0
+	for _, site := range callSitesOf(a.p, fn) {
+		args := site.Common().Args
+		if idx >= len(args) {
+			return
+		}
+		h, reach := a.heldAt(site)
+		if !reach {
+			continue
+		}
+		if isFreshLocal(args[idx]) {
+			fresh++
+			continue
+		}
+		shared++
+		cl := map[string]bool{}
+		for _, c := range h.classes() {
+			cl[c] = true
+		}
+		if common == nil {
+			common = cl
+		} else {
+			for c := range common {
+				if !cl[c] {
+					delete(common, c)
+				}
+			}
+		}
+	}
+	if fresh == 0 {
+		return
+	}
+	nh := ac.held.clone()
+	if nh == nil {
+		nh = heldSet{}
+	}
+	if shared == 0 {
+		nh["~fresh"] = "object under construction at every call site"
+	}
+	for c := range common {
+		if !nh.hasClass(c) {
+			nh["~"+c] = c
+		}
+	}
+	ac.held = nh
 }
 
 // isFreshLocal: the struct whose field is accessed was allocated in this
